@@ -49,18 +49,23 @@ func (g *Gateway) newSubscriptionEntry(id string, ctx *planner.PlanningContext) 
 
 	additionalRootSteps := make([]*planner.QueryPlanStep, 0)
 
+	// the plan can be shared with other requests through the plan cache:
+	// the root steps are detached from their children on copies, not in place
+	rootSteps := make([]*planner.QueryPlanStep, 0, len(plan.RootSteps))
 	for _, rs := range plan.RootSteps {
 		additionalRootSteps = append(additionalRootSteps, rs.Then...)
-		rs.Then = nil
+		cpy := *rs
+		cpy.Then = nil
+		rootSteps = append(rootSteps, &cpy)
 	}
 
-	rootQueryers := g.getQueryers(ctx, plan.RootSteps)
+	rootQueryers := g.getQueryers(ctx, rootSteps)
 
-	if len(plan.RootSteps) != 1 {
+	if len(rootSteps) != 1 {
 		return nil, errors.New("too many root operations")
 	}
 
-	rootStep := plan.RootSteps[0]
+	rootStep := rootSteps[0]
 
 	queryer := rootQueryers[rootStep.URL]
 
